@@ -652,6 +652,7 @@ func check(prop, tier string) {
 	for _, i := range infra {
 		fmt.Fprintln(os.Stderr, "INFRA:", i) // also next to violations: an unmet probe must not hide behind them
 	}
+	os.RemoveAll(tmp) // os.Exit below skips the deferred removal
 	if len(newViol) > 0 {
 		os.Exit(1)
 	}
